@@ -28,8 +28,117 @@ ASSUMPTIONS = [
 FN = "ibldsp.voltage.saturation"
 
 
+UFUNC_CMP = {"greater": ast.Gt, "greater_equal": ast.GtE, "less": ast.Lt, "less_equal": ast.LtE}
+
+
+def _block_accumulated(du, e, at):
+    """`ACC / nc` (or ACC) where ACC = zeros(ns) is accumulated, in a loop over channel blocks `for first in range(0, nc, blk)`, by
+    ACC[..] += count_nonzero(BUF, axis=0) and BUF is filled by a comparison ufunc with out=BUF[rows].  Returns (comparison rebuilt as an ast.Compare
+    on the block operands, axis, count call, 'fraction' | 'count', block info) or None."""
+    v = e
+    unit = "count"
+    if isinstance(v, ast.BinOp) and isinstance(v.op, ast.Div) and loc_name(v.right) in ("nc", "data.shape[0]", "len(data)"):
+        v, unit = v.left, "fraction"
+    acc = loc_name(v)
+    if acc is None:
+        vv = expand_name(du, v, at)
+        if isinstance(vv, ast.BinOp) and isinstance(vv.op, ast.Div) and loc_name(vv.right) in ("nc", "data.shape[0]", "len(data)"):
+            vv, unit = vv.left, "fraction"
+        acc = loc_name(vv)
+    if acc is None:
+        return None
+    augs = [d for d in du.defs if d.var == acc and d.kind in ("aug", "mutate") and isinstance(d.stmt, ast.AugAssign) and isinstance(d.stmt.op, ast.Add)]
+    for d in augs:
+        cn = d.stmt.value
+        if not (isinstance(cn, ast.Call) and call_name(cn) in ("count_nonzero", "sum") and cn.args):
+            continue
+        broot = cn.args[0]
+        while isinstance(broot, ast.Subscript):
+            broot = broot.value
+        buf = loc_name(broot)
+        if buf is None:
+            continue
+        ax = kwarg(cn, "axis") or (cn.args[1] if len(cn.args) > 1 else None)
+        # the loop and the comparison that fills the buffer in the same iteration
+        loop = None
+        for n in ast.walk(du.fn):
+            if isinstance(n, ast.For) and any(x is d.stmt for b in n.body for x in ast.walk(b)):
+                loop = n
+        if loop is None:
+            continue
+        for c in [x for b in loop.body for x in ast.walk(b) if isinstance(x, ast.Call) and call_name(x) in UFUNC_CMP]:
+            out = kwarg(c, "out") or (c.args[2] if len(c.args) > 2 else None)
+            root = out
+            while isinstance(root, ast.Subscript):
+                root = root.value
+            if loc_name(root) != buf or len(c.args) < 2:
+                continue
+            cmp_ = ast.copy_location(ast.Compare(left=c.args[0], ops=[UFUNC_CMP[call_name(c)]()], comparators=[c.args[1]]), c)
+            ast.fix_missing_locations(cmp_)
+            return cmp_, ax, cn, unit, {"loop": loop, "buffer": buf, "out": out, "ufunc": c, "acc_stmt": d.stmt}
+    return None
+
+
+def _strip_rows(e, loop):
+    """x for x[first:first + blk] / x[first:first + blk, :] / broadcast_to(x, (nc, 1))[first:first + blk] when the slice is the loop's block; (x, slice text)."""
+    if isinstance(e, ast.Subscript):
+        sl = e.slice.elts[0] if isinstance(e.slice, ast.Tuple) else e.slice
+        if isinstance(sl, ast.Slice) and loc_name(sl.lower) == loc_name(loop.target):
+            inner = e.value
+            if isinstance(inner, ast.Call) and call_name(inner) == "broadcast_to" and inner.args:
+                inner = inner.args[0]
+            return inner, norm(sl)
+    return e, None
+
+
 def _mean_of_compare(du, e, at):
     """(mask comparison, axis, call, 'fraction'|'count') behind a channel-proportion operand."""
+    blk = _block_accumulated(du, e, at)
+    if blk is not None:
+        cmp_, ax, cn, unit, info = blk
+        loop = info["loop"]
+        # the block slices of both operands are the same rows, the blocks tile the channels: range(0, nc, B) with rows [first : first + B]
+        ok_tile = False
+        it = loop.iter
+        if isinstance(it, ast.Call) and call_name(it) == "range" and len(it.args) == 3 and const_value(it.args[0]) == (True, 0) and loc_name(it.args[1]) in ("nc", "data.shape[0]"):
+            step = it.args[2]
+            rows = []
+
+            def visit(x):
+                y, sl = _strip_rows(x, loop)
+                if sl is not None:
+                    rows.append((x, sl))
+                for ch in ast.iter_child_nodes(x):
+                    visit(ch)
+            visit(cmp_)
+            want = norm(ast.Slice(lower=loop.target, upper=ast.BinOp(left=loop.target, op=ast.Add(), right=step), step=None))
+            ok_tile = bool(rows) and all(sl == want for _, sl in rows)
+        if not ok_tile:
+            raise AnalysisError("saturation: channel blocks are not rows [first : first + step] of a range(0, nc, step) loop")
+
+        class Unblock(ast.NodeTransformer):
+            def visit_Subscript(self, node):
+                node = self.generic_visit(node)
+                y, sl = _strip_rows(node, loop)
+                if sl is None:
+                    return node
+                if isinstance(node.slice, ast.Tuple) and all(isinstance(x, ast.Slice) and x.lower is None and x.upper is None for x in node.slice.elts[1:]):
+                    return y
+                if not isinstance(node.slice, ast.Tuple):
+                    return y
+                return node
+        import copy
+        whole = Unblock().visit(copy.deepcopy(cmp_))
+        ast.fix_missing_locations(whole)
+        whole._origin = info["ufunc"]
+        whole._block = info
+        if "diff" in src(whole):
+            # the slew flag sits on the sample before the jump: the ns-1 differences are accumulated into ACC[:-1] of a zeros(ns) vector (last sample never flagged)
+            tg = info["acc_stmt"].target
+            okpad = isinstance(tg, ast.Subscript) and isinstance(tg.slice, ast.Slice) and tg.slice.lower is None and tg.slice.upper is not None \
+                and const_value(tg.slice.upper) == (True, -1)
+            whole._pad_ok = okpad
+        return whole, ax, cn, ("fraction" if unit == "fraction" else "count")
     v = expand_name(du, e, at)
     if isinstance(v, ast.Call) and call_name(v) in ("mean", "count_nonzero", "sum") and v.args:
         ax = kwarg(v, "axis") or (v.args[1] if len(v.args) > 1 else None)
@@ -96,6 +205,9 @@ def d1_comparators(ctx):
                   key="axis:" + (loc_name(a.left) or "?"))
         if "diff" in src(cmp_):
             kinds["slew"] = cmp_
+            if hasattr(cmp_, "_pad_ok"):
+                ctx.check(cmp_._pad_ok, fi, cmp_._block["acc_stmt"], cmp_._block["acc_stmt"], "slew counts land on the sample before the jump (last sample never flagged)",
+                          "the ns-1 slew counts are not accumulated into [:-1] of the per-sample vector: flags are shifted by one sample", key="pad")
             ev = Evaluator(resolve=lambda e: repo.resolve_expr(fi, e))
             d = find(cmp_.left, ast.Call, lambda c: call_name(c) == "diff")
             okd = bool(d) and const_value(kwarg(d[0], "axis")) in ((True, -1), (True, 1)) and loc_name(d[0].args[0]) == "data"
@@ -117,7 +229,9 @@ def d1_comparators(ctx):
             from sa.algebra import SymExec
             ev = Evaluator(env={"max_voltage": Poly.sym("MV")}, resolve=lambda e: repo.resolve_expr(fi, e))
             sx = SymExec(ev, on_undecided="havoc")
-            stmt_of_cmp = du.cfg.node_for(cmp_).stmt
+            stmt_of_cmp = du.cfg.node_for(getattr(cmp_, "_origin", cmp_)).stmt
+            if getattr(cmp_, "_block", None) is not None:
+                stmt_of_cmp = cmp_._block["loop"]   # straight-line code before the block loop
             for st_ in fi.node.body:
                 if st_ is stmt_of_cmp:
                     break
@@ -203,6 +317,22 @@ def d2_d3_mute(ctx):
             a0 = v.args[0]
             if isinstance(a0, ast.BinOp) and isinstance(a0.op, ast.Sub) and const_value(a0.left) == (True, 1):
                 form = a0.right
+        if form is None and isinstance(v, ast.Call) and call_name(v) in ("ones", "ones_like"):
+            # shortcut when nothing is flagged: 1 - convolve(all-False, w) == 1 everywhere
+            from sa import guards as GD
+            at_ = GD.Atoms()
+            pc = GD.path_condition(du.cfg, du.cfg.node_for(d_stmt), at_)
+            fl = loc_name(flags_e)
+            none_flagged = False
+            for k in GD.atoms_of(pc):
+                a_ = at_.exprs.get(k)
+                if isinstance(a_, ast.Call) and call_name(a_) in ("any",) and (loc_name(a_.args[0]) == fl if a_.args else loc_name(a_.func.value) == fl) \
+                        and GD.entails(pc, GD.Not(GD.Atom(k))) is True:
+                    none_flagged = True
+            size_ok = fl is not None and fl in src(v)
+            ctx.check(none_flagged and size_ok, fi, d_stmt, d_stmt, "no flag: the gain is one everywhere (what 1 - convolve(no flags) gives)",
+                      f"`{src(d_stmt)}`: an all-ones gain is only right when no sample is flagged", key="range-ones")
+            continue
         ctx.check(form is not None, fi, d_stmt, d_stmt, "gain is 1 - (non-negative), clipped at 0: within [0, 1]",
                   f"`{src(d_stmt)}` is not max(0, 1 - x) / clip(1 - x, 0, 1): the gain can leave [0, 1]", key="range")
         if form is not None:
@@ -239,6 +369,20 @@ def d5_purity(ctx):
     ctx.check("spikeglx.Reader.range_volts" not in sh, fr, fr.node, "Reader.range_volts is a plain property", "each access returns a fresh vector",
               "Reader.range_volts is memoised: every caller shares one array, so any in-place use downstream corrupts the full-scale values for the rest of the session",
               key="range-volts-fresh")
+
+
+def d6_scratch(ctx):
+    ctx.rule("D6", "work arrays re-used across channel blocks: an iteration reads only the rows it has just written (no stale rows of the previous block are counted)")
+    from sa.common import stale_scratch_reads
+    fi = ctx.repo.fn(FN)
+    hits = stale_scratch_reads(fi)
+    for loop, buf, wnode, wreg, rnode, rreg in hits:
+        ctx.violation(fi, rnode, rnode, f"`{buf}` is allocated once and re-used by every iteration of the loop at line {loop.lineno}; this iteration fills only `{buf}[{wreg}]` "
+                      f"(line {wnode.lineno}) but then reads {rreg}: when the written range is shorter than the buffer (last, shorter block of channels) the remaining rows still hold "
+                      "the previous block's comparison results and are counted again - the fraction of offending channels is over-estimated, samples below the proportion get "
+                      "flagged and the mute gain drops around them", key=f"stale:{buf}", name_free=True)
+    if not hits:
+        ctx.ok(fi, fi.node, "no partially rewritten scratch buffer is read beyond the rewritten range", "no stale work-array rows", key="stale:none")
 
 
 def d4_callsite(ctx):
@@ -307,3 +451,4 @@ def run(ctx):
     ctx.run(d2_d3_mute)
     ctx.run(d4_callsite)
     ctx.run(d5_purity)
+    ctx.run(d6_scratch)
